@@ -19,7 +19,7 @@ func ruleGuarded(r *Run, p *Program, rule string) {
 	entries := 0
 	type vio struct{ construct, pos, detail string }
 	seen := map[string]bool{}
-	for _, e := range lockEntries {
+	for _, e := range resolveLockEntries(p) {
 		f := p.Fn(e.Key)
 		if !r.anchor(rule, e.Key, f != nil) {
 			continue
@@ -147,7 +147,7 @@ func ruleOneSection(r *Run, p *Program, rule string) {
 // ruleBalanced: every API entry returns with exactly the locks it was entered with.
 func ruleBalanced(r *Run, p *Program, rule string) {
 	n := 0
-	for _, e := range lockEntries {
+	for _, e := range resolveLockEntries(p) {
 		f := p.Fn(e.Key)
 		if f == nil {
 			continue
@@ -179,7 +179,7 @@ func ruleBalanced(r *Run, p *Program, rule string) {
 func ruleLockOrder(r *Run, p *Program, rule string) {
 	edges := map[string]string{}
 	nAcq := 0
-	for _, e := range lockEntries {
+	for _, e := range resolveLockEntries(p) {
 		f := p.Fn(e.Key)
 		if f == nil {
 			continue
@@ -292,6 +292,9 @@ func ruleGoroutine(r *Run, p *Program, rule string) {
 			})
 			r.check(stored, rule, construct+":cancel-stored", pos, "the cancel function is stored in DB.cancelBgWorker before the goroutine starts", "the goroutine is started before its cancel function is stored: Close may not be able to stop it")
 			body, _, _ := resolveFuncValue(nil, g.Call.Value, 0)
+			if body == nil {
+				body = g.Call.StaticCallee()
+			}
 			if !r.anchor(rule, "goroutine body", body != nil) {
 				return
 			}
@@ -402,7 +405,7 @@ func ruleGoroutine(r *Run, p *Program, rule string) {
 func ruleFSCalls(r *Run, p *Program, rule string) {
 	n := 0
 	seen := map[string]bool{}
-	for _, e := range lockEntries {
+	for _, e := range resolveLockEntries(p) {
 		f := p.Fn(e.Key)
 		if f == nil {
 			continue
@@ -423,7 +426,7 @@ func ruleFSCalls(r *Run, p *Program, rule string) {
 			}
 			n++
 			held := mustHold(w, nd)
-			construct := funcKey(nd.Ctx.Fn) + "->FileSystem." + fe.Method
+			construct := e.Key + "->FileSystem." + fe.Method // keyed by the API entry, not by the helper the call sits in
 			if seen[construct] {
 				continue
 			}
